@@ -606,6 +606,122 @@ Definition scase_ok (c : scase) : bool :=
   && list_eqb out_eqb (run_outs code_fx x0 (map fst h)) (map snd h)
   && sdb_eqb (run code_fx x0 (map fst h)) fin.
 
+
+(* ---------- storage layers of one slot over the transactions of a block (core/state/state_object.go) ----------
+   A live state object keeps three caches per slot: dirtyStorage (written in the current transaction),
+   pendingStorage (left by earlier transactions of the block: stateObject.finalize), originStorage
+   (cache of the value in the storage trie, kept up to date by updateTrie).  GetState looks them up in
+   that order.  [l_jr] = the prevalues of the storageChange entries of the slot, newest first;
+   [l_pobj] = the account is in StateDB.stateObjectsPending.  A revision is a journal length.
+   [plain = true]: storageChange.revert is  setState(key, prevalue)  and setState is
+   dirtyStorage[key] = value  (the code of /repo, obligation storage_revert_is_plain_write);
+   [plain = false]: the origin-aware revert (drops the dirty entry when prevalue = originStorage[key]). *)
+Definition code_storage_revert_plain : bool := gen_storage_revert_plain && gen_setstate_plain.
+
+Record lslot := mkL {
+  l_dirty : option word; l_pending : option word; l_origin : option word; l_trie : word;
+  l_jr : list word; l_pobj : bool }.
+
+Definition l_fresh (b : word) : lslot := mkL None None None b [] false.
+
+(* stateObject.GetCommittedState: pending, else cached origin, else read the trie and cache the value *)
+Definition l_committed (s : lslot) : word * lslot :=
+  match l_pending s with
+  | Some v => (v, s)
+  | None => match l_origin s with
+            | Some v => (v, s)
+            | None => (l_trie s, mkL (l_dirty s) None (Some (l_trie s)) (l_trie s) (l_jr s) (l_pobj s))
+            end
+  end.
+(* stateObject.GetState *)
+Definition l_get (s : lslot) : word * lslot :=
+  match l_dirty s with Some v => (v, s) | None => l_committed s end.
+(* stateObject.SetState: no-op when the value is unchanged, else journal the previous value *)
+Definition l_set (w : word) (s : lslot) : lslot :=
+  let s1 := snd (l_get s) in
+  let prev := fst (l_get s) in
+  if N.eqb prev w then s1 else mkL (Some w) (l_pending s1) (l_origin s1) (l_trie s1) (prev :: l_jr s1) (l_pobj s1).
+(* storageChange.revert (the entry is already off the journal) *)
+Definition l_undo (plain : bool) (prev : word) (s : lslot) : lslot :=
+  let keep := mkL (Some prev) (l_pending s) (l_origin s) (l_trie s) (l_jr s) (l_pobj s) in
+  if plain then keep
+  else match l_origin s with
+       | Some o => if N.eqb o prev then mkL None (l_pending s) (l_origin s) (l_trie s) (l_jr s) (l_pobj s) else keep
+       | None => keep
+       end.
+(* journal.revert: undo the k newest entries *)
+Fixpoint l_pop (plain : bool) (k : nat) (s : lslot) : lslot :=
+  match k with
+  | O => s
+  | S k' => match l_jr s with
+            | [] => s
+            | p :: j => l_pop plain k' (l_undo plain p (mkL (l_dirty s) (l_pending s) (l_origin s) (l_trie s) j (l_pobj s)))
+            end
+  end.
+Definition l_rewind (plain : bool) (n : nat) (s : lslot) : lslot := l_pop plain (length (l_jr s) - n) s.
+
+Inductive lframe := LSet (w : word) | LCall (body : list lframe) (fails : bool).
+
+Fixpoint l_exec (plain : bool) (f : lframe) (s : lslot) : lslot :=
+  match f with
+  | LSet w => l_set w s
+  | LCall body fails =>
+      let n := length (l_jr s) in                       (* Snapshot *)
+      let s1 := fold_left (fun x g => l_exec plain g x) body s in
+      if fails then l_rewind plain n s1 else s1          (* RevertToSnapshot *)
+  end.
+Definition l_frames (plain : bool) (fs : list lframe) (s : lslot) : lslot :=
+  fold_left (fun x g => l_exec plain g x) fs s.
+
+(* StateDB.Finalize: only accounts in journal.dirties are visited (one count per pending storageChange);
+   stateObject.finalize moves the dirty value to pendingStorage; the journal is dropped *)
+Definition l_finalize (s : lslot) : lslot :=
+  match l_jr s with
+  | [] => s
+  | _ => mkL None (match l_dirty s with Some v => Some v | None => l_pending s end) (l_origin s) (l_trie s) [] true
+  end.
+(* StateDB.IntermediateRoot: Finalize, then updateTrie of every object in stateObjectsPending *)
+Definition l_root (s : lslot) : lslot :=
+  let s1 := l_finalize s in
+  if l_pobj s1 then
+    match (match l_dirty s1 with Some v => Some v | None => l_pending s1 end) with
+    | None => mkL None None (l_origin s1) (l_trie s1) [] false
+    | Some v =>
+        if N.eqb v (match l_origin s1 with Some o => o | None => 0%N end)
+        then mkL None None (l_origin s1) (l_trie s1) [] false
+        else mkL None None (Some v) v [] false
+    end
+  else s1.
+
+(* a block: transactions (frames) each followed by a boundary, true = IntermediateRoot, false = Finalize *)
+Definition lblock := list (list lframe * bool).
+Definition l_tx (plain : bool) (s : lslot) (t : list lframe * bool) : lslot :=
+  let s1 := l_frames plain (fst t) s in if snd t then l_root s1 else l_finalize s1.
+Definition l_block (plain : bool) (b : lblock) (s : lslot) : lslot := fold_left (l_tx plain) b s.
+
+(* the harness reads the slot (GetState) after the frames of every transaction *)
+Fixpoint l_trace (plain : bool) (b : lblock) (s : lslot) : list word * lslot :=
+  match b with
+  | [] => ([], s)
+  | t :: b' =>
+      let s1 := l_frames plain (fst t) s in
+      let r := l_get s1 in
+      let s2 := if snd t then l_root (snd r) else l_finalize (snd r) in
+      let rest := l_trace plain b' s2 in
+      (fst r :: fst rest, snd rest)
+  end.
+
+Definition optZ (o : option word) : Z := match o with Some v => Z.of_N v | None => (-1)%Z end.
+
+(* a layered case: block-start value of the slot, the block, the values read after each transaction,
+   the entries of dirtyStorage / pendingStorage / originStorage after the block (-1 = none), last read *)
+Definition lcase_ok (b0 : word) (b : lblock) (vals : list word) (lay : Z * Z * Z) (fin : word) : bool :=
+  let r := l_trace code_storage_revert_plain b (l_fresh b0) in
+  let s := snd r in
+  let '(d, p, o) := lay in
+  list_eqb N.eqb (fst r) vals && Z.eqb (optZ (l_dirty s)) d && Z.eqb (optZ (l_pending s)) p
+  && Z.eqb (optZ (l_origin s)) o && N.eqb (fst (l_get s)) fin.
+
 (* An EVM case: a transaction (top-level call tree) on a database holding one lockup record [k -> v];
    observed: |ETXCache|, |CoinbaseDeletedHashes|, |CoinbasesDeleted| after the call, and whether the
    record is still readable after UndoCoinbasesDeleted-if-failed and batch.Write. *)
@@ -613,7 +729,8 @@ Inductive case :=
 | CS (c : scase)
 | CE (id : N) (k : key) (v : list N) (top : eframe) (n_etx n_hash n_del : N) (record_left : bool)
 | CO (id : N) (class : N) (effects_left : bool)    (* a creation frame: how it ended, and whether its effects stayed *)
-| CM (id : N) (db : smap (list N)) (top : eframe) (etxs : list N) (n_hash n_del : N).
+| CM (id : N) (db : smap (list N)) (top : eframe) (etxs : list N) (n_hash n_del : N)
+| CL (id : N) (b0 : word) (b : lblock) (vals : list word) (lay : Z * Z * Z) (fin : word).
     (* a call tree compiled to bytecode (harness evmtree.go): every frame - entered by CALL, CALLCODE,
        DELEGATECALL, STATICCALL, CREATE or CREATE2, all of them [ECall]: see the obligation
        [evm_frames_covered] - sends (EEmit: ETX / CONVERT opcode) and claims lockup records of [db];
@@ -638,9 +755,11 @@ Definition case_ok (c : case) : bool :=
   | CE _ k v top a b d r => ecase_ok k v top a b d r
   | CO _ cl stay => Bool.eqb stay (negb (ending_reverts code_create_oog_reverts (ending_of_class cl)))
   | CM _ db top etxs h d => mcase_ok db top etxs h d
+  | CL _ b0 b vals lay fin => lcase_ok b0 b vals lay fin
   end.
 
 Definition case_id (c : case) : N :=
-  match c with CS (i, _, _, _) => i | CE i _ _ _ _ _ _ _ => i | CO i _ _ => i | CM i _ _ _ _ _ => i end.
+  match c with CS (i, _, _, _) => i | CE i _ _ _ _ _ _ _ => i | CO i _ _ => i | CM i _ _ _ _ _ => i
+  | CL i _ _ _ _ _ => i end.
 Definition mismatches (cs : list case) : list N :=
   map case_id (filter (fun c => negb (case_ok c)) cs).
